@@ -189,3 +189,24 @@ Proof.
   unfold Model.Parsed.set_nanosecond. rewrite set_checked_fresh by (assumption || lia).
   rewrite C14.as_u32_small by (unfold u32_max; lia). reflexivity.
 Qed.
+
+(* a signed item printed without a sign (the year 0..9999) *)
+Lemma parse_numeric_nosign p ds rest spec width code :
+  zassoc (numeric_idx spec) PN_TABLE = Some (width, true, code) ->
+  forallb is_ascii_digit ds = true -> ds <> [] -> utf8_valid rest = true ->
+  blen ds <= width -> (blen ds < width -> not_digit_start rest = true) -> digits_value ds 0 <= i64_max ->
+  parse_numeric p (ds ++ rest) spec =
+  (let+ p' := set_by_code code p (digits_value ds 0) in pok (p', rest)).
+Proof.
+  intros Ht Hd Hne Hv Hw Hr Hval. unfold parse_numeric. rewrite Ht.
+  rewrite trim_start_id by (apply digits_nows; assumption).
+  change PN_MIN_DIGITS with 1.
+  assert (1 <= blen ds).
+  { destruct ds as [|c r]; [congruence|]. rewrite blen_cons. pose proof (blen_nonneg r). lia. }
+  assert (Hs : starts_with_byte (ds ++ rest) 45 = false /\ starts_with_byte (ds ++ rest) 43 = false).
+  { destruct ds as [|c r]; [congruence|]. cbn [forallb] in Hd. apply andb_prop in Hd.
+    pose proof (digit_range c (proj1 Hd)). cbn [app starts_with_byte]. lia. }
+  destruct Hs as [-> ->].
+  rewrite number_on_digits; try assumption; try lia.
+  reflexivity.
+Qed.
